@@ -120,6 +120,8 @@ func newAnn(trk tracker.Tracker) (*announcer.PeriodicalAnnouncer, func()) {
 func runRetry(c RetryCase) core.Result {
 	res := core.Result{Nontrivial: true}
 	errs := make([]string, len(c.Scripts)+1)
+	stall := core.WatchStalls()
+	defer stall.Stop()
 	var wg sync.WaitGroup
 	for i := range c.Scripts {
 		wg.Add(1)
@@ -130,6 +132,16 @@ func runRetry(c RetryCase) core.Result {
 			defer done()
 			go a.Run()
 			time.Sleep(runFor)
+			// when the process was descheduled meanwhile the retry timer and this sleep expire together: give the
+			// announcer the time that was lost (plus a second) before closing it
+			for dl := time.Now().Add(stall.Lost() + time.Second); stall.Lost() > 0 && time.Now().Before(dl); time.Sleep(20 * time.Millisecond) {
+				st.mu.Lock()
+				n := len(st.calls)
+				st.mu.Unlock()
+				if n >= 2 {
+					break
+				}
+			}
 			a.Close()
 			st.mu.Lock()
 			defer st.mu.Unlock()
@@ -143,8 +155,8 @@ func runRetry(c RetryCase) core.Result {
 					c.Scripts[i].Fails[0], c.Scripts[i].AtMs[0], time.Since(st.ended[0]).Round(time.Millisecond), firstRetryBound)
 				return
 			}
-			if gap := st.calls[1].Sub(st.ended[0]); gap > firstRetryBound+slack {
-				errs[i] = fmt.Sprintf("retry after a failed announce came %v later, bound %v", gap, firstRetryBound)
+			if gap := st.calls[1].Sub(st.ended[0]); gap > firstRetryBound+slack+stall.Lost() {
+				errs[i] = fmt.Sprintf("retry after a failed announce came %v later, bound %v (process descheduled for %v meanwhile)", gap, firstRetryBound, stall.Lost())
 			}
 		}(i)
 	}
